@@ -12,7 +12,7 @@ HARNESS = ["network/transport/v2/zz_verif_c07_test.go", "network/transport/v2/zz
 PKG2 = "network"
 HARNESS2 = ["network/zz_verif_c15_test.go", "network/transport/grpc/zz_verif_export_c15.go"]
 PKG3 = "network/transport/grpc"
-HARNESS3 = ["network/transport/grpc/zz_verif_c15_test.go"]
+HARNESS3 = ["network/transport/grpc/zz_verif_c15_test.go", "network/transport/grpc/zz_verif_c15_inbound_test.go"]
 HARNESSES = [(PKG, HARNESS, "c15"), (PKG2, HARNESS2, "c15cfg"), (PKG3, HARNESS3, "c15tls")]
 
 REQUIRED = ["payload_only_in_payload_msg", "private_payload_release_sound", "decrypt_iff_member", "payload_stored_only_if_hash_matches", "payload_with_transaction_only_if_hash_matches",
@@ -23,7 +23,10 @@ REQUIRED = ["payload_only_in_payload_msg", "private_payload_release_sound", "dec
             "connection_authenticated_only_via_authenticator", "fact_authenticate_call_sites",
             "created_private_has_full_pal", "fact_encrypt_and_authenticator_stateless",
             "fact_payload_presence_guards", "public_tx_admitted_only_with_payload",
-            "offloaded_certificate_needs_exactly_one_value", "fact_offloading_header_checks", "known_transaction_writes_no_payload", "known_transaction_keeps_payload_store", "fact_state_add_present_branch_writes_nothing", "offloaded_identity_is_this_streams_header", "offloaded_streams_independent", "fact_offloading_authinfo_overwritten", "authenticated_with_proven_certificate", "decryptPAL_depends_only_on_keys_and_header", "header_prefix_does_not_determine_list", "fact_sent_envelopes_fresh", "fact_decryptPAL_stateless"]
+            "offloaded_certificate_needs_exactly_one_value", "fact_offloading_header_checks", "known_transaction_writes_no_payload", "known_transaction_keeps_payload_store", "fact_state_add_present_branch_writes_nothing", "offloaded_identity_is_this_streams_header", "offloaded_streams_independent", "fact_offloading_authinfo_overwritten", "authenticated_with_proven_certificate", "decryptPAL_depends_only_on_keys_and_header", "header_prefix_does_not_determine_list", "fact_sent_envelopes_fresh", "fact_decryptPAL_stateless",
+            "inbound_streams_share_connection_identity", "stream_on_authenticated_connection_proved_it", "inbound_stream_to_release_sound",
+            "refused_inbound_stream_changes_nothing", "readMetadata_ok_needs_single_values", "fact_inbound_lookup_is_model",
+            "fact_connection_get_and_predicates", "fact_inbound_stream_order", "fact_read_metadata_shape"]
 
 
 def run(ctx):
@@ -229,13 +232,13 @@ def run(ctx):
 
     # ---- oracle 5: the real server TLS configuration (newServerTLSConfig) over a real crypto/tls handshake: a client certificate that does
     # not chain to the trust store (self-signed, other CA, none) is never accepted, in TLS 1.2 and 1.3
-    t_bad, tls_lines = 0, 0
-    if not ctx.replay or '"op":"tlsclient"' in open(ctx.replay).read(4096) or '"op":"cmauth"' in open(ctx.replay).read(4096) or '"op":"offload' in open(ctx.replay).read(4096):
+    t_bad, tls_lines, n_inbound, inbound_streams, inbound_res = 0, 0, 0, 0, Counter()
+    if not ctx.replay or '"op":"tlsclient"' in open(ctx.replay).read(4096) or '"op":"cmauth"' in open(ctx.replay).read(4096) or '"op":"offload' in open(ctx.replay).read(4096) or '"op":"inbound"' in open(ctx.replay).read(4096):
         b3 = ctx.go_test_binary(PKG3, HARNESS3, "c15tls")
         if b3 is None:
             ctx.oblige("harness-builds:grpc.newServerTLSConfig", False, ctx.harness_error[-1200:])
         else:
-            rc3, log3, out3 = ctx.run_harness(b3, "TestVerifC15ServerTLS", {}, outdir=os.path.join(ctx.scratch, "out-tls"), timeout=300)
+            rc3, log3, out3 = ctx.run_harness(b3, "TestVerifC15ServerTLS", ({"VERIF_REPLAY": os.path.abspath(ctx.replay)} if ctx.replay else {}), outdir=os.path.join(ctx.scratch, "out-tls"), timeout=300)
             ctx.oblige("harness-runs:grpc.newServerTLSConfig", rc3 == 0, log3[-1200:])
             if rc3 == 0:
                 o3, i3, m3 = (os.path.join(out3, x) for x in ("ops.jsonl", "impl.out", "model.out"))
@@ -259,6 +262,35 @@ def run(ctx):
                                           f"tlsOffloadingAuthenticator.intercept on streams sharing one connection (*peer.Peer; initial AuthInfo '{j['pre']}') with header values {j['streams']}: "
                                           f"stream {k_bad} carries the certificate of {want[k_bad]} but its handler authenticates with {got[k_bad]} (all: {got}) — a peer claiming that node's DID "
                                           "is marked authenticated and gets its private payloads", "offloadseq.jsonl", ops3[k])
+                        continue
+                    if j["op"] == "inbound":
+                        # histories of inbound streams on the REAL handleInboundStream: a stream may only sit on a connection whose identity
+                        # (connection.Peer(): what the v2 handlers decide on) its OWN headers + certificate established
+                        n_inbound += 1
+                        didtab, eps = dict(map(tuple, j["didtab"])), dict(map(tuple, j["endpoints"]))
+                        opened = {e["sid"]: e for e in j["events"] if e["e"] == "open"}
+                        for en, part in enumerate(l[len("inbound "):].split(" ; ")):
+                            res, _, snap = part.partition("|")
+                            inbound_res[res.rstrip("0123456789")] += 1
+                            for c in filter(None, snap.split(",")):
+                                cid, cdid, cauth, _dns, sids = c.split("~")
+                                for sid in filter(None, sids.split("+")):
+                                    e = opened[int(sid)]
+                                    dids, pids = e.get("dids", []), e.get("pids", [])
+                                    claimed = didtab.get(dids[0].strip(), None) if len(dids) == 1 and dids[0].strip() else ""
+                                    proven = bool(claimed) and (j["kind"] == "dummy" or (e.get("hascert", False) and eps.get(claimed) in e.get("cert", [])))
+                                    ok_id = len(pids) == 1 and pids[0].strip() == cid
+                                    ok_auth = (cauth != "true" and cdid == "") or (proven and claimed == cdid)
+                                    inbound_streams += 1
+                                    if ok_id and ok_auth:
+                                        continue
+                                    t_bad += 1
+                                    if any("stream-on-connection" in v[1] for v in ctx.violations):
+                                        continue
+                                    ctx.violation("C15:stream-on-connection-with-identity-it-did-not-prove",
+                                                  f"handleInboundStream ({j['kind']} authenticator): after event {en} stream {sid} (peerID header {pids}, nodeDID header {dids}, certificate "
+                                                  f"{e.get('cert') if e.get('hascert') else None}) sits on connection id={cid} did={cdid} authenticated={cauth}: the v2 handlers serve it with that "
+                                                  f"identity (private payloads of {cdid or 'nobody'}) although its own set-up did not establish it", "inbound.jsonl", ops3[k])
                         continue
                     if j["op"] == "offload":
                         # TLS offloading interceptor: a certificate is taken over only from EXACTLY ONE header value that holds one certificate
@@ -320,7 +352,9 @@ def run(ctx):
                                      "known_finding_cases": dict(known_cases),
                                      "store_probes": {" ".join(k): v for k, v in sk.items()},
                                      "authn_outcomes": dict(Counter(l.split()[1] for l in impl if l.startswith("authn "))),
-                                     "network_configure_cases(tls x strict x nodeDID)": cfg_lines}
+                                     "network_configure_cases(tls x strict x nodeDID)": cfg_lines,
+                                     "inbound_stream_histories": n_inbound, "inbound_event_outcomes": dict(inbound_res),
+                                     "inbound_stream_on_connection_checks": inbound_streams}
     ctx.cov["samples"] = [steps[60][:300] if len(steps) > 60 else "", next((l for l in impl if "pl(" in l), "")[:300]]
     if gaps:
         ctx.notes.append(f"gap exercised (not a violation): holder able to decrypt without being listed released the payload to listed peers: {dict(gaps)}")
